@@ -86,6 +86,9 @@ type Conn struct {
 	broken    error
 	blackhole bool
 	rdl, wdl  bool
+	// a deadline that expired stays expired until it is set again: the next
+	// call fails at once, as with a net.Conn whose deadline lies in the past
+	rExpired, wExpired bool
 
 	readWaiting int
 	brokerBuf   []byte // undecoded client bytes
@@ -212,6 +215,10 @@ func (c *Conn) Write(p []byte) (int, error) {
 		w.log(Event{Kind: "write", Conn: c.Idx, Off: len(c.Out), Err: c.broken.Error()})
 		return 0, c.broken
 	}
+	if c.wdl && c.wExpired {
+		w.log(Event{Kind: "write", Conn: c.Idx, Off: len(c.Out), Err: "timeout (deadline expired before and was not set again)"})
+		return 0, &net.OpError{Op: "write", Net: "sim", Err: &timeoutError{"write"}}
+	}
 	if len(p) == 0 {
 		return 0, nil // nothing reaches the network
 	}
@@ -249,6 +256,7 @@ func (c *Conn) Write(p []byte) (int, error) {
 			// the deadline expires with the accepted part as progress
 			w.log(Event{Kind: "write", Conn: c.Idx, Off: len(c.Out), Err: "timeout"})
 			c.OutFaults++
+			c.wExpired = true
 			w.cond.Broadcast()
 			return n, &net.OpError{Op: "write", Net: "sim", Err: &timeoutError{"write"}}
 		}
@@ -291,6 +299,7 @@ func (c *Conn) Write(p []byte) (int, error) {
 	case "timeout":
 		err = &net.OpError{Op: "write", Net: "sim", Err: &timeoutError{"write"}}
 		c.OutFaults++
+		c.wExpired = true
 	case "error":
 		err = &net.OpError{Op: "write", Net: "sim", Err: ErrInjected}
 		c.broken = err
@@ -355,6 +364,10 @@ func (c *Conn) Read(p []byte) (int, error) {
 			w.log(Event{Kind: "read", Conn: c.Idx, Off: c.InPos, Err: c.broken.Error()})
 			return 0, c.broken
 		}
+		if c.rdl && c.rExpired {
+			w.log(Event{Kind: "read", Conn: c.Idx, Off: c.InPos, Err: "timeout (deadline expired before and was not set again)"})
+			return 0, &net.OpError{Op: "read", Net: "sim", Err: &timeoutError{"read"}}
+		}
 		if c.pendingStall {
 			c.pendingStall = false
 			// an expiry is only legal under an armed deadline; it counts as
@@ -364,6 +377,7 @@ func (c *Conn) Read(p []byte) (int, error) {
 				c.InFaults++
 				c.noteStall()
 				w.log(Event{Kind: "read", Conn: c.Idx, Off: c.InPos, Err: "timeout after progress"})
+				c.rExpired = true
 				return 0, &net.OpError{Op: "read", Net: "sim", Err: &timeoutError{"read"}}
 			}
 		}
@@ -438,6 +452,7 @@ func (c *Conn) Read(p []byte) (int, error) {
 			}
 			err = &net.OpError{Op: "read", Net: "sim", Err: &timeoutError{"read"}}
 			c.InFaults++
+			c.rExpired = true
 			c.noteStall()
 		case "eof":
 			err = io.EOF
@@ -513,6 +528,7 @@ func (c *Conn) SetReadDeadline(t time.Time) error {
 	c.w.Mu.Lock()
 	defer c.w.Mu.Unlock()
 	c.rdl = !t.IsZero()
+	c.rExpired = false
 	c.armedAt = c.InPos
 	if c.closed {
 		return &net.OpError{Op: "set", Net: "sim", Err: net.ErrClosed}
@@ -524,6 +540,7 @@ func (c *Conn) SetWriteDeadline(t time.Time) error {
 	c.w.Mu.Lock()
 	defer c.w.Mu.Unlock()
 	c.wdl = !t.IsZero()
+	c.wExpired = false
 	if c.closed {
 		return &net.OpError{Op: "set", Net: "sim", Err: net.ErrClosed}
 	}
